@@ -22,10 +22,13 @@ TRUSTED_BASE = [
 ASSUMPTIONS = ["strings are sequences of Unicode scalar values (no lone surrogates)"]
 TECHNIQUE = "executable RFC 9535 ABNF recognizer proved sound and complete in Coq, run against compile() on near-miss and garbage strings; lexer/parser model correspondence; partial Coq theorems on lexical sublanguages"
 LEVEL = "proof"
-LEVEL_TEXT = ("Proved: the grammar recognizer used as oracle is sound and complete for the transcribed ABNF (in_rfc_sound, in_rfc_complete). The headline statement C04_sound "
-              "(model accepts -> derivable) is kept in Props/C04.v and proved only for the parts listed there (partial); every generated string outside the grammar must be rejected by the real compile().")
-LEVEL_NOTE = ("Partial: the full language inclusion lexer+parser -> ABNF is not proved; detection rests on the proved oracle run differentially plus the model correspondence. "
-              "Trusted: Coq kernel, grammar transcription, extraction and driver.")
+LEVEL_TEXT = ("Proved: C04_parser_sound - for every registry and range and every token list of the shape the lexer produces (one EOF, last; INDEX tokens are digits; '..' is followed by a name, '*' or '['), "
+              "Parser.parse returns a query only if the typed token-level grammar derives the tokens for it (bracket structure, separators, slices, operator precedence, parentheses, typing, integer range); "
+              "C04_parser_exact - with C05_complete_tokens, exactly then. Also: the grammar recognizer used as oracle is sound and complete for the transcribed ABNF (in_rfc_sound, in_rfc_complete). "
+              "NOT proved (partial): the lexical layer - that the lexer's token list has that shape and that tokens plus the blank space between them spell a string of the ABNF; every generated string "
+              "outside the grammar must be rejected by the real compile().")
+LEVEL_NOTE = ("Partial: lexer -> ABNF is not proved; detection rests on the proved oracle run differentially plus the model correspondence. "
+              "Trusted: Coq kernel, grammar transcriptions (Spec/Rfc9535Grammar.v, QT in Proofs/ParseComplete.v), extraction and driver.")
 
 CLASSICS = ["$.a-b", "$[1:2 3]", "$[?@.a==-01]", "$[?!!@.a]", "$[?(@.a)==1]", "$[?count(@.a,)==1]", "$[?@.a==1==1]", "$[?!true]", "$[?@.a == !@.b]",
             " $", "$ ", "$.a ", "$ .a", "$. a", "$.  a", "$[01]", "$[-0]", "$[0:-0]", "$[1.0]", "$[1e2]", "$[?@.a==01]", "$[?@.a==1.]", "$[?@.a==.5]", "$[?@.a==+1]",
